@@ -657,3 +657,35 @@ func (c *verifFlakyCache) Write(data []byte) error {
 }
 
 func (c *verifFlakyCache) Read() ([]byte, error) { return c.content, nil }
+
+// C11/C13: a cache write that fails during one poll must not leave the cache behind for good: the next poll that
+// completes without error leaves the cache holding what the store yields, also when that poll finds nothing new.
+func verifHarnessC11PollAfterFailedFlush() {
+	verifEnvReset()
+	client := &verifClient{}
+	cache := &verifFlakyCache{}
+	s := verifSymStore(param("names"), client, cache)
+	assume(verifStoreInv(s))
+	assume(not(mapAny(s.active.m, func(_ string, cs *cachedSecret) bool { return cs.LastAccess < 0 }))) // nothing expires in this scenario
+	s.expiryAge = 0
+	// poll 1: the service has moved (or not) and the cache cannot be written
+	cache.failing = true
+	err1 := s.Refresh(verifBackground())
+	changed := cache.failing && err1 != nil
+	_ = changed
+	// poll 2: the cache works again, the service has not changed since poll 1
+	cache.failing = false
+	err2 := s.Refresh(verifBackground())
+	assert("second-poll-completes-without-error", err2 == nil)
+	if err1 != nil {
+		// poll 1 installed something and failed to persist it
+		assert("an-error-free-poll-leaves-the-cache-holding-what-the-store-yields", cache.writes >= 1)
+		if cache.writes >= 1 {
+			var got map[string]*cachedSecret
+			assert("cache-doc-decodes", jsonBlobAs(cache.content, &got))
+			assert("cache-holds-active-set", verifSameCached(got, s.active.m))
+		}
+		reach("end-repaired")
+	}
+	reach("end")
+}
